@@ -147,6 +147,62 @@ Proof.
     replace ((cy + 1) * w) with (cy * w + w) in Hm by ring. rewrite (Z.mul_comm w h). lia.
 Qed.
 
+(* corollaries of extrude_spec and the failure branch *)
+(* the failure branch, exactly: a degenerate size or a buffer of the wrong length *)
+Theorem extrude_none_iff img :
+  extrude_border img = None <-> (uw img < 1 \/ uh img < 1 \/ zlen (upx img) <> uw img * uh img).
+Proof.
+  unfold extrude_border.
+  destruct (Z.ltb_spec (uh img) 1) as [H1|H1]; cbn [orb]; [split; [lia|reflexivity]|].
+  destruct (Z.ltb_spec (uw img) 1) as [H2|H2]; [split; [lia|reflexivity]|].
+  destruct (Z.eqb_spec (zlen (upx img)) (uw img * uh img)) as [H3|H3]; cbn [negb].
+  - split; [discriminate|lia].
+  - split; [lia|reflexivity].
+Qed.
+
+(* the interior of the result is the input, unchanged *)
+Theorem extrude_interior img : 1 <= uw img -> 1 <= uh img -> zlen (upx img) = uw img * uh img ->
+  exists r, extrude_border img = Some r /\
+    forall x y, 0 <= x < uw img -> 0 <= y < uh img ->
+      nthz (upx r) ((y + 1) * (uw img + 2) + (x + 1)) = nthz (upx img) (y * uw img + x).
+Proof.
+  intros Hw Hh Hlen. destruct (extrude_spec img Hw Hh Hlen) as (r & Hr & _ & _ & _ & Hpx).
+  exists r. split; [exact Hr|]. intros x y Hx Hy. rewrite Hpx by lia.
+  replace (clamp (y + 1 - 1) 0 (uh img - 1)) with y by (unfold clamp; lia).
+  replace (clamp (x + 1 - 1) 0 (uw img - 1)) with x by (unfold clamp; lia). reflexivity.
+Qed.
+
+(* the one-pixel border repeats the neighbouring row / column of the result *)
+Theorem extrude_edges img : 1 <= uw img -> 1 <= uh img -> zlen (upx img) = uw img * uh img ->
+  exists r, extrude_border img = Some r /\
+    (forall x, 0 <= x < uw img + 2 ->
+       nthz (upx r) (0 * (uw img + 2) + x) = nthz (upx r) (1 * (uw img + 2) + x)) /\
+    (forall x, 0 <= x < uw img + 2 ->
+       nthz (upx r) ((uh img + 1) * (uw img + 2) + x) = nthz (upx r) (uh img * (uw img + 2) + x)) /\
+    (forall y, 0 <= y < uh img + 2 ->
+       nthz (upx r) (y * (uw img + 2) + 0) = nthz (upx r) (y * (uw img + 2) + 1)) /\
+    (forall y, 0 <= y < uh img + 2 ->
+       nthz (upx r) (y * (uw img + 2) + (uw img + 1)) = nthz (upx r) (y * (uw img + 2) + uw img)).
+Proof.
+  intros Hw Hh Hlen. destruct (extrude_spec img Hw Hh Hlen) as (r & Hr & _ & _ & _ & Hpx).
+  exists r. split; [exact Hr|]. repeat split.
+  - intros x Hx. rewrite !Hpx by lia. f_equal. f_equal. f_equal. unfold clamp. lia.
+  - intros x Hx. rewrite !Hpx by lia. f_equal. f_equal. f_equal. unfold clamp. lia.
+  - intros y Hy. rewrite !Hpx by lia. f_equal. f_equal. unfold clamp. lia.
+  - intros y Hy. rewrite !Hpx by lia. f_equal. f_equal. unfold clamp. lia.
+Qed.
+
+(* every pixel of the result is a pixel of the input: no colour is invented *)
+Theorem extrude_pixels_from_input img : 1 <= uw img -> 1 <= uh img -> zlen (upx img) = uw img * uh img ->
+  exists r, extrude_border img = Some r /\
+    forall x y, 0 <= x < uw img + 2 -> 0 <= y < uh img + 2 ->
+      exists i, 0 <= i < uw img * uh img /\ nthz (upx r) (y * (uw img + 2) + x) = nthz (upx img) i.
+Proof.
+  intros Hw Hh Hlen. destruct (extrude_spec img Hw Hh Hlen) as (r & Hr & _ & _ & _ & Hpx).
+  exists r. split; [exact Hr|]. intros x y Hx Hy. eexists. split; [|apply Hpx; assumption].
+  apply clamp_index_in_range; assumption.
+Qed.
+
 (* ------------------------------------------------------------------ *)
 (* PaletteMapper *)
 
